@@ -601,31 +601,6 @@ func oracleC15(op string, a []string) string {
 		if r == "panic" || r == "hang" || r == "bad-op" {
 			return "FAIL " + r
 		}
-		// the parsed list is a value of its own: overwriting the input afterwards must not change it
-		if b, ok := unhex(a[1]); ok && strings.HasPrefix(r, "ok") && len(b) > 0 {
-			in := append([]byte{}, b...)
-			var show func() string
-			if op == "qfd" {
-				var l nasType.QoSFlowDescs
-				if l.UnmarshalBinary(in) != nil {
-					return "pass"
-				}
-				show = func() string { return showDescs(l) }
-			} else {
-				var l nasType.QoSRules
-				if l.UnmarshalBinary(in) != nil {
-					return "pass"
-				}
-				show = func() string { return showRules(l) }
-			}
-			before := show()
-			for i := range in {
-				in[i] ^= 0xff
-			}
-			if show() != before {
-				return "FAIL parsed list aliases the input (changed after the input was overwritten)"
-			}
-		}
 		return "pass"
 	case "unk":
 		// the input carries an unknown parameter / component identifier at a position where an identifier is read
